@@ -7,16 +7,21 @@ D=$(realpath "$1"); ID=$(basename "$D")
 WT=/tmp/sv_$ID; export CARGO_TARGET_DIR=/tmp/sv_target; export CARGO_NET_OFFLINE=true
 PKG=$(python3 -c "import json;print(json.load(open('$D/meta.json'))['package'])")
 CDIR=$(python3 -c "import json;print(json.load(open('$D/meta.json'))['crate_dir'])")
+# features the demo needs (taken from meta.json's test_command, e.g. --features rle)
+FEAT=$(python3 -c "
+import json,re
+m=re.search(r'--features[= ]+(\"[^\"]+\"|\S+)', json.load(open('$D/meta.json')).get('test_command',''))
+print('--features '+m.group(1).strip('\"') if m else '')")
 git -C /repo worktree remove --force $WT 2>/dev/null; rm -rf $WT
 git -C /repo worktree add --detach $WT HEAD >/dev/null 2>&1 || { echo "worktree failed"; exit 2; }
 cd $WT
 mkdir -p $CDIR/tests && cp $D/demo.rs $CDIR/tests/seeded_demo.rs
 echo "== demo on unchanged code"
-timeout 1800 cargo test --offline -q -p $PKG --test seeded_demo > $D/verify_demo_base.log 2>&1; R1=$?
+timeout 1800 cargo test --offline -q -p $PKG $FEAT --test seeded_demo > $D/verify_demo_base.log 2>&1; R1=$?
 echo "   exit $R1 (want 0)"
 git apply $D/patch.diff || { echo "patch does not apply"; git -C /repo worktree remove --force $WT; exit 3; }
 echo "== demo with the change"
-timeout 1800 cargo test --offline -q -p $PKG --test seeded_demo > $D/verify_demo_mut.log 2>&1; R2=$?
+timeout 1800 cargo test --offline -q -p $PKG $FEAT --test seeded_demo > $D/verify_demo_mut.log 2>&1; R2=$?
 echo "   exit $R2 (want != 0)"
 rm -f $CDIR/tests/seeded_demo.rs
 echo "== workspace tests with the change"
